@@ -27,6 +27,7 @@ type ckptInput struct {
 	Runs   int   `json:"runs"`
 	Batch  int   `json:"batch"`
 	Seed   int64 `json:"seed"`
+	Deletes bool `json:"deletes,omitempty"` // the writer also deletes, and writes between runs
 	Restart bool `json:"restart,omitempty"` // on disk: between runs the bucket is closed, the process clock state is lost, the
 	// wall clock has gone back, and the bucket is opened again (CreateOrOpen or ReOpenExisting)
 }
@@ -80,10 +81,19 @@ func execCkpt(in ckptInput, scratch string) (Case, error) {
 			return c, err
 		}
 		last := run == in.Runs
-		if !last {
-			for i := 0; i < in.Batch; i++ {
+		write := func(n int) {
+			for i := 0; i < n; i++ {
 				key := fmt.Sprintf("d%d", doc%7) // rewrite a few keys so that final versions matter
 				doc++
+				if in.Deletes && r.Intn(4) == 0 {
+					// a deletion is a version like any other: its tombstone must reach the feed, live or on resume
+					if _, cur, e := col.GetRaw(key); e == nil {
+						if cas, e := col.Remove(key, cur); e == nil {
+							finalCas[key] = cas
+						}
+						continue
+					}
+				}
 				cas, err := col.WriteCas(key, 0, 0, []byte(fmt.Sprintf(`{"i":%d}`, doc)), 0)
 				if err != nil {
 					// the key exists: overwrite it on its current CAS
@@ -94,6 +104,9 @@ func execCkpt(in ckptInput, scratch string) (Case, error) {
 					finalCas[key] = cas
 				}
 			}
+		}
+		if !last {
+			write(in.Batch)
 			time.Sleep(time.Duration(r.Intn(1500)) * time.Microsecond)
 		} else {
 			// let the final run drain
@@ -125,6 +138,9 @@ func execCkpt(in ckptInput, scratch string) (Case, error) {
 		mu.Lock()
 		runTerms = append(runTerms, P(L(got...), N(cp.LastSeq)))
 		mu.Unlock()
+		if in.Deletes && !last && r.Intn(2) == 0 {
+			write(1 + r.Intn(3)) // while no feed is running
+		}
 		if in.Restart && in.OnDisk && !last && r.Intn(2) == 0 {
 			// what a new process on a host whose clock is behind would do
 			b.Close(ctxBg)
@@ -165,7 +181,7 @@ func runCkpt(cfg runCfg, emit func(Case)) error {
 	} else {
 		r := rand.New(rand.NewSource(cfg.seed))
 		for i := 0; i < cfg.n; i++ {
-			inputs = append(inputs, ckptInput{OnDisk: r.Intn(2) == 0, Runs: 4 + r.Intn(8), Batch: 5 + r.Intn(30), Seed: r.Int63n(1 << 40), Restart: r.Intn(2) == 0})
+			inputs = append(inputs, ckptInput{OnDisk: r.Intn(2) == 0, Runs: 4 + r.Intn(8), Batch: 5 + r.Intn(30), Seed: r.Int63n(1 << 40), Restart: r.Intn(2) == 0, Deletes: r.Intn(2) == 0})
 		}
 	}
 	for _, in := range inputs {
